@@ -45,6 +45,10 @@ package db
 //@   ensures forall i int :: 0 <= i && i < len(result) ==> result[i] != nil && len(result[i].Value) > 0 && len(result[i].Key) >= len(p0)
 //@   ensures forall i int :: 0 <= i && i < len(result) ==> bytesEq(result[i].Key, 0, p0, 0, len(p0))
 //@   ensures forall i int :: 0 <= i && i < len(result) ==> has(bmap(recv), strOf(result[i].Key)) && bmap(recv)[strOf(result[i].Key)] == strOf(result[i].Value)
+// completeness half (C08: erase-by-prefix finds every record): every present key that starts with the prefix is returned,
+// at the index named by the ghost observer gbpidx of (this result, key); stored keys are never empty (Put refuses them)
+//@   ensures forall i int :: 0 <= i && i < len(result) ==> len(result[i].Key) > 0
+//@   ensures err == nil ==> forall qs_ string :: has(bmap(recv), qs_) && hasPrefix(qs_, p0) ==> 0 <= ghost("gbpidx", result, qs_) && ghost("gbpidx", result, qs_) < len(result) && strOf(result[ghost("gbpidx", result, qs_)].Key) == qs_
 
 //@ func Bucket.Get
 //@   props C01 C08 C09 C10 C11 C12 C18
@@ -129,15 +133,17 @@ package db
 // Iteration over a bucket (read-only view of committed entries in a range).  Ghost: iterkey = current key of each
 // iterator, iterbkt = identity of the bucket it iterates.
 //@ func Bucket.NewIterator
-//@   props C01 C09 C10 C11 C17
+//@   props C01 C08 C09 C10 C11 C17
 //@   requires recv != nil
 //@   ensures result != nil && ghost("iterbkt", result) == bid(recv)
 
 //@ func Iterator.Next
-//@   props C01 C09 C10 C11 C17
+//@   props C01 C08 C09 C10 C11 C17
 //@   modifies gmap("iterkey")
 //@   ensures gsameExcept("iterkey", recv)
 //@   ensures result ==> has(bmapI(ghost("iterbkt", recv)), ggets("iterkey", recv)) && len(ggets("iterkey", recv)) > 0
+// end of range: the iterator stands on no key (stored keys are never empty)
+//@   ensures !result ==> len(ggets("iterkey", recv)) == 0
 
 //@ func Iterator.Key
 //@   props C01 C09 C10 C11 C17
